@@ -1,7 +1,7 @@
 #!/bin/bash
 # usage: tools/confirm_seed.sh <ID> <A|B>   — re-confirms a seeded change in its scratch worktree /var/tmp/mut/<ID>
 set -u
-ID=$1; V=$2; WT=/var/tmp/mut/$ID; OUT=/var/tmp/mut/$ID.out/$V
+ID=$1; V=$2; WT=/var/tmp/mut/$ID; OUT=/var/tmp/mut/$ID.out${OUTSUF:-}/$V
 export GOFLAGS=-mod=mod GOPROXY=off; unset GOSUMDB GOTOOLCHAIN
 cd $WT || exit 2
 git checkout -q -- . ; git status --short | grep -v '^??' && { echo "worktree dirty"; exit 2; }
